@@ -319,6 +319,25 @@ pub fn c13_single_threaded(run: &Run, thorough: bool) {
   });
   c13_files::<rarena_allocator::sync::Arena>(run);
   c13_files::<rarena_allocator::unsync::Arena>(run);
+  // once more in the build with debug assertions: there std checks that every file descriptor is
+  // closed exactly once (a double close aborts the process), which the release build cannot see
+  if let Ok(bin) = std::env::var("VERIF_CHECKED_BIN") {
+    use std::os::unix::process::ExitStatusExt;
+    let mut ch = std::process::Command::new(&bin).arg("c13-files-child").arg("x").spawn().expect("spawn c13 child");
+    let pid = ch.id();
+    let st = ch.wait().expect("wait c13 child");
+    run.eval(1);
+    if st.code() == Some(crate::crashguard::CRASH_EXIT) || st.signal().is_some() {
+      let p = crate::report::verif_root().join("replays").join(format!("C13-crash-child-{}.json", pid));
+      let v: serde_json::Value = serde_json::from_str(&std::fs::read_to_string(&p).unwrap_or_default()).unwrap_or(serde_json::Value::Null);
+      let _ = std::fs::remove_file(&p);
+      run.violation(crate::report::Violation { property: "C13".into(), signature: format!("C13:file-lifetime:abort-in-checked-build:{}", v["signature"].as_str().unwrap_or("signal")), message: format!("[overflow/debug-checked build] dropping the last value of a file-backed arena killed the process ({:?}); case {}", st, v["case"]), replay: json!({"engine": "c13-file", "profile": "checked", "case": v["case"]}) });
+    } else if st.code() != Some(0) {
+      eprintln!("machinery: c13-files-child ended with {:?}", st);
+      std::process::exit(2);
+    }
+    run.set("file_lifetime_checked_profile", json!(true));
+  }
   run.set("single_threaded_part", json!({"alphabet": alphabet.iter().map(|o| o.short()).collect::<Vec<_>>(), "depth": depth, "cells": items.len(), "oracle": "three twins per history (as written / drops as explicit dealloc of the buffer extent / owned as borrowed) must agree on (allocated, discarded, free list) after every step; value drop counts, refs(), detached drops; file lifetime with remove_on_drop"}));
 }
 
@@ -355,4 +374,17 @@ fn c20_readonly(run: &Run) {
     one::<rarena_allocator::sync::Arena>(run, fl);
     one::<rarena_allocator::unsync::Arena>(run, fl);
   }
+}
+
+/// entry point of the debug-checked child for the file-lifetime part of C13
+pub fn c13_files_child() -> i32 {
+  let crash = crate::report::verif_root().join("replays").join(format!("C13-crash-child-{}.json", std::process::id()));
+  let _ = std::fs::create_dir_all(crash.parent().unwrap());
+  crate::crashguard::arm("C13", &crash);
+  let run = Run::new("C13", Tier::Quick, "model_checking");
+  c13_files::<rarena_allocator::sync::Arena>(&run);
+  c13_files::<rarena_allocator::unsync::Arena>(&run);
+  crate::subject::cleanup_scratch();
+  // violations of the in-process oracle are reported by the release pass as well; only a crash matters here
+  0
 }
